@@ -16,7 +16,7 @@ import (
 )
 
 func TestC15(t *testing.T) {
-	rec := ev.New("C15", "fault_enumeration", "(1) panic-escape monitor on every begin/end block of the mixed workloads; (2) crash-point enumeration: at sampled block boundaries the begin- and end-block hooks are re-run on forks of the committed state under the spy multistore with a panic injected before the k-th KV operation of the s-th wrapped step, for every step s and every k (exhaustive per explored block); (3) environment faults applied to reachable states before blocks. distinct = (universe, step call site, k, committed?, #writes)")
+	rec := ev.New("C15", "fault_enumeration", "(1) panic-escape monitor on every begin/end block of the mixed workloads; (2) crash-point enumeration: at sampled block boundaries the begin- and end-block hooks are re-run on forks of the committed state under the spy multistore with a panic injected before the k-th KV operation of the s-th wrapped step, for every step s and every k (exhaustive per explored block); (3) environment faults applied to reachable states before blocks; (4) the CDP workload on the real bandoracle->market feed with zero-rate outages, band outages, short responses and absurd values. distinct = (universe, step call site, k, committed?, #writes)")
 	defer finish(t, rec)
 	runs := ev.Pick(1, 3)
 	boundaries := ev.Pick(3, 10)
@@ -47,6 +47,7 @@ func TestC15(t *testing.T) {
 	}
 	c15OtherUniverses(t, rec)
 	c15EnvFaults(t, rec)
+	c15OracleFeed(t, rec)
 	rec.SetExhaustive(false)
 	rec.Floor("crash_points_injected", 200)
 	rec.Floor("explored_blocks_begin", 2)
